@@ -242,7 +242,7 @@ def run(chk):
             val = line[0].split(b": ", 1)[1]
             shown = {b"Package": "Package=" + hx(val), b"Maintainer": "Maintainer=" + hx(val)}.get(fld)
             if not r.startswith("ok ") or (shown and shown not in r):
-                chk.violate({"kind": "property", "class": "field-name-case", "case": lib.show_case(("debload", [pk])), "impl": r[:200], "field": spell.decode(),
+                chk.violate({"kind": "property", "case": lib.show_case(("debload", [pk])), "impl": r[:200], "field": spell.decode(),
                              "explanation": "a control file whose field name is spelled in another letter case was not loaded with that field (field names are not case-sensitive)"})
     # the same bytes always give the same result
     for c, a in zip(icases[::4], impl[::4]):
